@@ -73,6 +73,30 @@ pub struct Variant {
     pub bystanders: Vec<(String, String)>,
 }
 
+/// Hard faults, where C20 promises nothing: executed as non-gating probes (counted in the
+/// evidence file, never turned into a violation).
+#[derive(Clone, Debug, Serialize, Deserialize, PartialEq)]
+pub enum ProbeKind {
+    EioRead(u32),
+    InputMissing,
+    ConfigMissing,
+    EaccesOutput,
+    EnospcWrite(u32),
+    EpipeStdout(u32),
+    InvalidUtf8Input,
+    InvalidUtf8ConfigLine,
+    StdinIsTty,
+    CrashAfterTruncate,
+    CrashMidWrite(usize),
+}
+
+#[derive(Clone, Debug, Serialize, Deserialize, PartialEq)]
+pub struct HardProbe {
+    /// index of the variant the probe is derived from
+    pub base: usize,
+    pub kind: ProbeKind,
+}
+
 #[derive(Clone, Debug, Serialize, Deserialize, PartialEq)]
 pub struct C20Scn {
     pub doc: Doc,
@@ -83,6 +107,8 @@ pub struct C20Scn {
     pub now: (i64, i64),
     pub targets: Vec<String>,
     pub variants: Vec<Variant>,
+    #[serde(default)]
+    pub probes: Vec<HardProbe>,
 }
 
 pub const NAME_POOL: &[&str] = &[
@@ -240,6 +266,7 @@ pub fn generate(seed: u64) -> C20Scn {
         allow_other: true,
         allow_skip: true,
         tl_eighths: 3,
+        large_inputs: true,
         default_config_eighths: 4,
     };
     let mut doc = doc::generate(&mut rng, &p);
@@ -250,8 +277,26 @@ pub fn generate(seed: u64) -> C20Scn {
     let now_sec = *rng.pick(&[E_BASE - 1, E_BASE, E_BASE + 1, E_BASE - 86_400, E_BASE + 86_400 * 30, E_BASE - 86_400 * 365]);
     let now_nsec = *rng.pick(&[0i64, 0, 1, 999_999_999, 500_000_000]);
     let n_variants = 3 + rng.usize(5);
-    let variants = (0..n_variants).map(|_| gen_variant(&mut rng, targets.len(), &doc, mode)).collect();
-    C20Scn { doc, mode, json, offset, now: (now_sec, now_nsec), targets, variants }
+    let variants: Vec<Variant> = (0..n_variants).map(|_| gen_variant(&mut rng, targets.len(), &doc, mode)).collect();
+    let mut probes = Vec::new();
+    if rng.chance(1, 3) {
+        let base = rng.usize(variants.len());
+        let kind = match rng.below(11) {
+            0 => ProbeKind::EioRead(rng.below(3) as u32),
+            1 => ProbeKind::InputMissing,
+            2 => ProbeKind::ConfigMissing,
+            3 => ProbeKind::EaccesOutput,
+            4 => ProbeKind::EnospcWrite(rng.below(2) as u32),
+            5 => ProbeKind::EpipeStdout(rng.below(2) as u32),
+            6 => ProbeKind::InvalidUtf8Input,
+            7 => ProbeKind::InvalidUtf8ConfigLine,
+            8 => ProbeKind::StdinIsTty,
+            9 => ProbeKind::CrashAfterTruncate,
+            _ => ProbeKind::CrashMidWrite(rng.usize(40)),
+        };
+        probes.push(HardProbe { base, kind });
+    }
+    C20Scn { doc, mode, json, offset, now: (now_sec, now_nsec), targets, variants, probes }
 }
 
 /// A marker name that contains a delimiter or its own quote cannot be written
@@ -523,8 +568,138 @@ pub fn run(scn: &C20Scn, stats: &mut RunStats) -> Option<Violation> {
             }
         }
     }
+    run_probes(scn, &text, &offset, stats);
     stats.nontrivial = any_removed && stats.counters.get("execs_with_soft_fault").copied().unwrap_or(0) > 0;
     None
+}
+
+/// Non-gating: what happens under hard faults is counted, under the narrow relaxed oracle
+/// "exit status 0 => the delivered bytes equal the reference", and never reported.
+fn run_probes(scn: &C20Scn, text: &str, offset: &str, stats: &mut RunStats) {
+    for p in &scn.probes {
+        let v = match scn.variants.get(p.base) {
+            Some(v) => v,
+            None => continue,
+        };
+        let targets = target_set(scn, v);
+        let reference = match lib_call(text, &scn.doc, offset, scn.now, &targets, scn.mode, scn.json) {
+            Ok(r) => r,
+            Err(_) => continue,
+        };
+        let (mut fs, mut ex, out_path) = build_exec(scn, v, text);
+        ex.io = IoPlan::default();
+        let in_path = match &v.input {
+            Input::File { path, .. } => Some(path.clone()),
+            Input::Stdin => None,
+        };
+        let name = match &p.kind {
+            ProbeKind::EioRead(n) => {
+                ex.io.hard = Some(HardFault::EioRead(*n));
+                "eio_read"
+            }
+            ProbeKind::InputMissing => match &in_path {
+                Some(ip) => {
+                    fs.remove(ip);
+                    "enoent_input"
+                }
+                None => continue,
+            },
+            ProbeKind::ConfigMissing => match &v.config {
+                Some(c) => {
+                    fs.remove(&c.path);
+                    "enoent_config"
+                }
+                None => continue,
+            },
+            ProbeKind::EaccesOutput => match &out_path {
+                Some(op) => {
+                    ex.io.hard = Some(HardFault::Eacces(op.clone()));
+                    "eacces_output"
+                }
+                None => continue,
+            },
+            ProbeKind::EnospcWrite(n) => {
+                if out_path.is_none() {
+                    continue;
+                }
+                ex.io.hard = Some(HardFault::EnospcWrite(*n));
+                "enospc_write"
+            }
+            ProbeKind::EpipeStdout(n) => {
+                if out_path.is_some() {
+                    continue;
+                }
+                ex.io.hard = Some(HardFault::EpipeStdout(*n));
+                "epipe_stdout"
+            }
+            ProbeKind::InvalidUtf8Input => {
+                let mut bytes = text.as_bytes().to_vec();
+                let at = bytes.len() / 2;
+                bytes.insert(at, 0xFF);
+                match &in_path {
+                    Some(ip) => {
+                        fs.insert(ip.clone(), bytes);
+                    }
+                    None => ex.stdin = StdinSpec::PipeBytes(bytes),
+                }
+                "invalid_utf8_input"
+            }
+            ProbeKind::InvalidUtf8ConfigLine => match &v.config {
+                Some(c) if c.lines.len() >= 2 => {
+                    let mut bytes = fs.get(&c.path).cloned().unwrap_or_default();
+                    bytes.insert(0, 0xFF); // first line unreadable: every later name is silently dropped
+                    fs.insert(c.path.clone(), bytes);
+                    "invalid_utf8_config_line"
+                }
+                _ => continue,
+            },
+            ProbeKind::StdinIsTty => {
+                if in_path.is_some() {
+                    continue;
+                }
+                ex.stdin = StdinSpec::Tty;
+                "stdin_is_tty"
+            }
+            ProbeKind::CrashAfterTruncate => {
+                if out_path.is_none() {
+                    continue;
+                }
+                ex.io.crash = Some(CrashAt::AfterOpenWrite);
+                "crash_mid_commit"
+            }
+            ProbeKind::CrashMidWrite(n) => {
+                if out_path.is_none() {
+                    continue;
+                }
+                ex.io.crash = Some(CrashAt::AfterFileBytes(*n));
+                "crash_mid_commit"
+            }
+        };
+        let out = execute(&mut fs, &ex, crate::cli::run);
+        let delivered: Vec<u8> = match &out_path {
+            Some(p) => fs.get(p).cloned().unwrap_or_default(),
+            None => out.stdout.clone(),
+        };
+        stats.absorb(&format!("probe:{}", name), &out, &delivered);
+        stats.bump(&format!("hardprobe_{}", name));
+        match &out.status {
+            Status::Exit(0) => {
+                if delivered == reference.as_bytes() {
+                    stats.bump("hardprobe_result_exit0_and_output_equals_reference");
+                } else {
+                    stats.bump(&format!("hardprobe_result_exit0_but_output_differs:{}", name));
+                }
+            }
+            Status::Crash(_) => {
+                if matches!(v.output, Output::SameAsInput { .. }) && delivered != text.as_bytes() && delivered != reference.as_bytes() {
+                    stats.bump("hardprobe_result_inplace_crash_lost_the_source");
+                } else {
+                    stats.bump("hardprobe_result_crash_left_partial_or_old_output");
+                }
+            }
+            _ => stats.bump(&format!("hardprobe_result_nonzero_exit:{}", name)),
+        }
+    }
 }
 
 fn status_class(s: &Status) -> String {
@@ -593,16 +768,23 @@ fn diff_signature(scn: &C20Scn, _v: &Variant, got: &[u8], want: &[u8]) -> String
 
 pub fn shrink_candidates(s: &C20Scn) -> Vec<C20Scn> {
     let mut out = Vec::new();
+    if !s.probes.is_empty() {
+        let mut c = s.clone();
+        c.probes.clear();
+        out.push(c);
+    }
     // fewer variants
     if s.variants.len() > 1 {
         for i in 0..s.variants.len() {
             let mut c = s.clone();
             c.variants = vec![s.variants[i].clone()];
+            c.probes.clear();
             out.push(c);
         }
         for i in 0..s.variants.len() {
             let mut c = s.clone();
             c.variants.remove(i);
+            c.probes.clear();
             out.push(c);
         }
     }
